@@ -1,7 +1,7 @@
+From Coq Require Import ZArith List Bool Lia. From MS Require Import PyBase Bits ByteFacts BufferAbs Schc Parsers ParserTiling RfcHeaders. Import ListNotations. Open Scope Z_scope.
 (* ParserRfc.v -- C08 for IPv6, IPv4, UDP and CoAP: on every well-formed message (RfcHeaders.v) the parser
    model (Parsers.v) returns exactly the field list of the RFC layout and consumes exactly the header;
    the explicit stacks and the next-protocol prediction. *)
-From Coq Require Import ZArith List Bool Lia. From MS Require Import PyBase Bits ByteFacts BufferAbs Schc Parsers ParserTiling RfcHeaders. Import ListNotations. Open Scope Z_scope.
 
 (* ---- slices of concatenations ------------------------------------------------------------------ *)
 Lemma firstn_app_exact {A} (a b : list A) n : n = length a -> firstn n (a ++ b) = a.
